@@ -215,6 +215,7 @@ def job_imcsolve(n, su, sv, tv, seed):
     def decl(ex_, vd, ty, inner):
         if 'SelfAdjointEigenSolver' in ty:
             arg = rvc.rval(ex_.expr(inner[0]['inner'][0]))
+            arg = arg.selfadjointViewLower()        # contract of SelfAdjointEigenSolver: only the lower triangle of its argument is referenced
             solver_arg.append(arg.copy())
             if mx_equal(arg, VEVt):
                 return ESObj(V.copy(), E.copy())
